@@ -37,7 +37,7 @@ func vRunCase(c vCase) (out vOut) {
 	vRealtime = c.Realtime
 	vTier = c.Tier
 	vHeldRanks, vMainGoid, vNoBlockMsg, vSpawned = nil, vGoid(), "", nil
-	vGoLive = false
+	vGoLive, vPreemptBody = false, nil
 	vRaceMode, vRaceStop = c.Race, make(chan struct{})
 	defer func() {
 		if vRaceMode {
